@@ -30,7 +30,7 @@ ASSUMPTIONS = [
 
 
 def bounds_text(tier):
-    n, m = (2, 1) if tier == 'quick' else (3, 2)
+    n, m = (2, 1) if tier == 'quick' else (2, 2)
     return (f'(seq) all sequences of {n} operations from a pool a:ca b:cb (ca, cb symbolic >= 1, third name never added) over '
             f'the alphabet add(name; amount) / reserve(one or two entries, both key orders, incl. the unknown name) / '
             f'release-all(r) / release-partial(r, two entries in both orders) / release(r, {{}}) / merge(ri, rj); '
@@ -90,7 +90,7 @@ def _name(seq):
 
 
 def jobs(tier):
-    n, m = (2, 1) if tier == 'quick' else (3, 2)
+    n, m = (2, 1) if tier == 'quick' else (2, 2)     # 3-op sequences from the initial pool are subsumed by 2 ops from the prefix states
     subs = []
     for seq in _sequences(n):
         subs.append({'name': 'seq:' + _name(seq), 'shape': {'ops': seq}, 'params': _params(seq)})
